@@ -258,11 +258,14 @@ def check(P, R, tier):
     R.floor("RF2-closed", "entries of period tables spelled as closed forms", n, 250)
 
 
-LEVEL = ("Decides the common structure of the four carry routines (in-range shortcut not above the shortest period; forward loop "
-         "strict, with the length of the period being left, taken before the move; backward loop moves first, then adds the length "
-         "of the period entered, while the value is below 1), the month/year wrap constants and the month range, that a week is 7 "
-         "days or one week count, and the dispatch.  That the result is the day exactly n days away is NOT decided: it depends on "
-         "the period lengths the loops look up (their tables are C01's) and on the converters.")
+LEVEL = ("Decides exact day and week addition for the four calendars with carry loops by decoding the adders with the count kept symbolic "
+         "(RF2-add): from start days of one representative year of each of the 21 year classes, for every count within +-400 days / "
+         "+-60 weeks, the result is the representation of the day that many days away.  Counts beyond the window rest on the common "
+         "structure of the four carry routines, decided separately: in-range shortcut not above the shortest period; forward loop "
+         "strict, with the length of the period being left, looked up afresh (RF-fresh) before the move; backward loop moves first, "
+         "then adds the length of the period entered, while the value is below 1; month / year wrap constants and month range; a "
+         "week is 7 days or one week count; the dispatch; the period lengths decoded as tables (RF2-closed).  NOT decided: the "
+         "business-day-of-month and Hijri calendars' adders, 32-bit overflow of huge counts.")
 RULE = "obligation = one shortcut / forward loop / backward loop per carry routine, one wrap pair, one week adder, one dispatch case"
 ASSUME = ["the cumulative month table behind __get_mdays and the 53-week years behind __get_isowk are right (C01 decides those tables); "
           "the closed forms on top of them (__get_mdays, __get_mcnt, __get_bdays, __get_ydays) are decoded here (RF2-closed)"]
